@@ -31,7 +31,7 @@ TOKEN_RE = re.compile(
   | (?P<str>"(?:[^"\\]|\\.)*")
   | (?P<num>\d[\d_]*(?:\.\d+)?(?:f64|u8|u16|usize)?)
   | (?P<id>[A-Za-z_][A-Za-z0-9_]*(?:!(?=\())?)
-  | (?P<op>=>|::|&&|\|\||==|!=|>=|<=|\.\.|[{}()\[\],.;:!<>|&=+\-*/_])
+  | (?P<op>=>|::|&&|\|\||==|!=|>=|<=|\.\.|[{}()\[\],.;:!<>|&=+\-*/_?'#@%^$~\\])
     """,
     re.X | re.S,
 )
@@ -169,6 +169,17 @@ class P:
             return e
         if t == "{":
             self.eat()
+            # statements that are tracing macro invocations are skipped (feature-gated logging)
+            while self.peek() == "tracing" and self.peek(1) == "::":
+                depth = 0
+                while True:
+                    tk = self.eat()
+                    if tk == "(":
+                        depth += 1
+                    elif tk == ")":
+                        depth -= 1
+                    elif tk == ";" and depth == 0:
+                        break
             e = self.expr()
             self.eat("}")
             return e
@@ -282,6 +293,17 @@ class P:
 
 def translate_body(body, names, pats, only_if_cond=False):
     toks = lex(body)
+    if isinstance(only_if_cond, str):
+        # the initialiser of `let <name> = <expr>;`
+        name = only_if_cond
+        for i in range(len(toks) - 2):
+            if toks[i] == "let" and toks[i + 1] == name and toks[i + 2] == "=":
+                p = P(toks[i + 3:], names, pats)
+                e = p.expr()
+                if p.peek() != ";":
+                    raise TranslateError("expected `;` after the initialiser of %s" % name)
+                return e
+        raise TranslateError("`let %s =` not found" % name)
     if only_if_cond:
         # take the condition of the first `if` at top level
         if "if" not in toks:
@@ -349,6 +371,8 @@ SPECS = [
       "self.config.periodic_announce_to_down_members": "old.pad",
       "config.periodic_announce_to_down_members": "new.pad",
       "self.config.periodic_gossip": "old.pg", "config.periodic_gossip": "new.pg"}, {}, True),
+    ("increaseIncarnation", "(selfInc inc : Nat) : Bool", "lib.rs", "fn handle_self_update", "handle_self_update",
+     {"self.incarnation": "selfInc", "incarnation": "inc"}, ORD_PATS, "increase_incarnation"),
     ("acceptPayload", "(self dst : Id) (msg : Msg) : Bool", "lib.rs", "fn accept_payload", "accept_payload",
      {"header.dst": "dst", "self.identity": "self", "header.message": "msg", "Message::Announce": "Msg.announce",
       "self.identity.addr()": "self.addr", "header.dst.addr()": "dst.addr"}, {}, False),
